@@ -34,6 +34,7 @@ def setCfg (st : DSt) (kv : String) : Option DSt :=
     | "raftwal.flushOnAppend" => do let b ← boolOfString? v; pure { st with cfg := { st.cfg with flushOnAppend := b } }
     | "seg.guardUntruncated" => do let b ← boolOfString? v; pure { st with scfg := { st.scfg with guardUntruncated := b } }
     | "seg.wdChecksFlushed" => do let b ← boolOfString? v; pure { st with scfg := { st.scfg with wdChecksFlushed := b } }
+    | "seg.spanTrim" => if v == "prefixKept" then some st else none
     | "seg.flushRetries" => do let b ← boolOfString? v; pure { st with scfg := { st.scfg with flushRetries := b } }
     | "seg.replaySeedsTrunc" => do let b ← boolOfString? v; pure { st with scfg := { st.scfg with replaySeedsTrunc := b } }
     -- operator facts the model is not parameterised by: only the modelled value is accepted
@@ -44,6 +45,10 @@ def setCfg (st : DSt) (kv : String) : Option DSt :=
     | "seg.flushRemovePos" => if v == "afterInstall" then some st else none
     | "seg.flushEditOrder" => if v == "EditAddFile,EditLogPointer" then some st else none
     | "raftwal.sendAfterPersist" => do let b ← boolOfString? v; pure { st with cfg := { st.cfg with sendAfterPersist := b } }
+    -- facts the model is not parameterised by: only the modelled value is accepted
+    | "raftwal.replayLengthBound" => if v == "none" then some st else none
+    | "raftwal.bootstrapChecksHardState" => if v == "true" then some st else none
+    | "raftwal.hsAfterEntries" => do let b ← boolOfString? v; pure { st with cfg := { st.cfg with hsAfterEntries := b } }
     | "raftwal.syncFlushes" => do let b ← boolOfString? v; pure { st with cfg := { st.cfg with syncFlushes := b } }
     | _ => none
   | _ => none
@@ -123,17 +128,21 @@ def specCall (st : DSt) (cl : Call) : DSt × String :=
       | _ => st.trunc
     ({ st with hist := hist, trunc := tr }, "ok")
 
-def runCall (st : DSt) (cl : Call) : DSt × String :=
+/-- `big`: the record is larger than a whole segment (`AppendRecords` legally writes it alone into
+a fresh segment: `ensureCapacity` always rotates for it, and the segment is over-full afterwards) -/
+def runCallG (big : Bool) (st : DSt) (cl : Call) : DSt × String :=
   let (st1, spec) := specCall st cl
   if st.dead then (st1, "dead\t" ++ spec) else
-  let rot := st.full && (recOfCall cl).isSome
+  let rot := (st.full || big) && (recOfCall cl).isSome
   let s0 := if rot then step st.cfg st.s .rotate else st.s
   let st1 := if rot then { st1 with full := false } else st1
   let s' := doCall st.cfg s0 cl
   let out := if s'.ok then "ok" else (match cl with
     | .app _ _ => "panic"
     | _ => "err")
-  ({ st1 with s := s' }, out ++ "\t" ++ spec)
+  ({ st1 with s := s', full := if big && (recOfCall cl).isSome then true else st1.full }, out ++ "\t" ++ spec)
+
+def runCall (st : DSt) (cl : Call) : DSt × String := runCallG false st cl
 
 def bg (st : DSt) (e : Ev) : DSt × String :=
   if st.dead then (st, "dead\t*") else ({ st with s := step st.cfg st.s e }, "ok\t*")
@@ -177,6 +186,19 @@ def stepSeg (st : DSt) (toks : List String) : DSt × String :=
       let rl := if out == "ok" then st.rlast.map (fun p => if p.1 == g then (p.1, p.2 + n) else p) else st.rlast
       ({ st with ss := s', rlast := rl }, out ++ "\tok")
     | _, _ => (st, "bad-op")
+  | ["s.rover", g, back, n] =>
+    -- a new leader rewrites the last `back` entries (and may extend): append starting at last+1-back
+    match natOf? g, natOf? back, natOf? n with
+    | some g, some back, some n =>
+      let last := ((st.ss.grps.find? (·.id == g)).map (·.last)).getD 0
+      let live := ((st.ss.grps.find? (·.id == g)).map (·.openOK)).getD false
+      if !live then (st, "nogroup\t*")
+      else if back > last then (st, "skip\t*")
+      else
+        let (s', out) := Seg.rover st.ss g (last + 1 - back) n
+        let rl := if out == "ok" && n ≠ 0 then st.rlast.map (fun p => if p.1 == g then (p.1, last + 1 - back + n - 1) else p) else st.rlast
+        ({ st with ss := s', rlast := rl }, out ++ "\t*")
+    | _, _, _ => (st, "bad-op")
   | ["s.rhs", g] =>
     match natOf? g with
     | some g => let (s', out) := Seg.rhs st.ss g; ({ st with ss := s' }, out ++ "\tok")
@@ -230,6 +252,14 @@ def step' (st : DSt) (toks : List String) : DSt × String :=
     match natOf? i, natOf? t with
     | some i, some t => runCall st (.snap i t)
     | _, _ => (st, "bad-op")
+  | ["bigapp", f, items] =>
+    match natOf? f, parseItems? items with
+    | some f, some items => runCallG true st (.app f items)
+    | _, _ => (st, "bad-op")
+  | ["bigsnap", i, t] =>
+    match natOf? i, natOf? t with
+    | some i, some t => runCallG true st (.snap i t)
+    | _, _ => (st, "bad-op")
   | ["compact", a, r] =>
     match natOf? a, natOf? r with
     | some a, some r => runCall st (.compact a r)
@@ -249,6 +279,12 @@ def step' (st : DSt) (toks : List String) : DSt × String :=
   -- outputs are verdicts.  A healthy step succeeds; a step whose WAL write fails returns the
   -- error, and after the crash that follows every vote grant / append ack the peer sent must be
   -- covered by the recovered hard state and log — which holds iff nothing is sent on the error path.
+  | ["p.bootcrash"] =>
+    -- the storage fails in the middle of the bootstrap Ready, then crash + restart: with the hard
+    -- state persisted first the recovered commit index lies beyond the empty log and
+    -- raft.NewRawNode panics; with the entries first the peer restarts
+    (st, (if st.cfg.hsAfterEntries then "crash=ok covered step=err" else "crash=panic step=err") ++ "\tcrash=ok*")
+  | ["p.early", _] => (st, "ok\tok")
   | ["p.vote", _] => (st, "ok\tok")
   | ["p.app", _] => (st, "ok\tok")
   | ["p.crash"] => (st, "crash=ok covered\tcrash=ok covered*")
